@@ -80,6 +80,19 @@ def ident(x):
     return x
 
 
+# the error classes the library defines (by name); an error of a class NOT in this list is reported as the nearest class of its
+# ancestry that is (a new subclass of FormatError is a format error), or as the built-in it derives from
+LIBRARY_ERRORS = {"Error", "FormatError", "NoteFormatError", "KeyError", "RangeError", "FingerError", "UnexpectedObjectError",
+                  "MeterFormatError", "InstrumentRangeError", "HeaderError", "TimeDivisionError", "Win32MidiException"}
+
+
+def err_name(e):
+    for cls in type(e).__mro__:
+        if cls.__module__ == "builtins" or cls.__name__ in LIBRARY_ERRORS:
+            return cls.__name__
+    return type(e).__name__
+
+
 def call(op, inp, fn, shape=ident, timeout=None):
     """Execute fn(), record outcome. Exceptions are outcomes (class name), never propagated."""
     rec = {"op": op, "in": inp}
@@ -100,7 +113,7 @@ def call(op, inp, fn, shape=ident, timeout=None):
     except RecursionError:
         rec.update(ok=False, out=0, err="RecursionError")
     except Exception as e:
-        rec.update(ok=False, out=0, err=type(e).__name__)
+        rec.update(ok=False, out=0, err=err_name(e))
     return rec
 
 
